@@ -180,23 +180,28 @@ theorem natToDec_field (n : Nat) : (natToDec n).all isFieldByte = true := by
   have hd := List.all_eq_true.mp (natToDec_all_digit n) c hc
   have := digit_facts c; simp [hd] at this; exact this.1.1
 
-/-- three-digit status codes, digit by digit (a finite table) -/
-theorem natToDec3_table : ∀ n : Fin 900,
-    (match natToDec (n.val + 100) with
-     | [a, b, c] => isDigit a && isDigit b && isDigit c &&
-         ((a.toNat - 48) * 100 + (b.toNat - 48) * 10 + (c.toNat - 48) == n.val + 100)
-     | _ => false) = true := by decide +kernel
+/-- one decimal digit as a byte (a table of ten) -/
+theorem digit_table : ∀ d : Fin 10,
+    (isDigit (UInt8.ofNat (Nat.digitChar d.val).toNat) &&
+      ((UInt8.ofNat (Nat.digitChar d.val).toNat).toNat - 48 == d.val)) = true := by decide +kernel
 
+theorem digit_byte (d : Nat) (h : d < 10) :
+    isDigit (UInt8.ofNat (Nat.digitChar d).toNat) = true ∧ (UInt8.ofNat (Nat.digitChar d).toNat).toNat - 48 = d := by
+  have := digit_table ⟨d, h⟩
+  simpa using this
+
+/-- three-digit status codes, digit by digit -/
 theorem natToDec3 (n : Nat) (h1 : 100 ≤ n) (h2 : n ≤ 999) :
     ∃ a b c, natToDec n = [a, b, c] ∧ isDigit a = true ∧ isDigit b = true ∧ isDigit c = true ∧
       (a.toNat - 48) * 100 + (b.toNat - 48) * 10 + (c.toNat - 48) = n := by
-  have := natToDec3_table ⟨n - 100, by omega⟩
-  have e : n - 100 + 100 = n := by omega
-  simp only [e] at this
-  split at this
-  · next a b c heq =>
-      simp only [Bool.and_eq_true, beq_iff_eq] at this
-      exact ⟨a, b, c, heq, this.1.1.1, this.1.1.2, this.1.2, this.2⟩
-  · exact absurd this (by simp)
+  have e : Nat.toDigits 10 n = [Nat.digitChar (n / 10 / 10), Nat.digitChar (n / 10 % 10), Nat.digitChar (n % 10)] := by
+    rw [Nat.toDigits_eq_if (by omega), if_neg (by omega), Nat.toDigits_eq_if (by omega), if_neg (by omega),
+      Nat.toDigits_of_lt_base (by omega)]
+    rfl
+  have ha := digit_byte (n / 10 / 10) (by omega)
+  have hb := digit_byte (n / 10 % 10) (by omega)
+  have hc := digit_byte (n % 10) (by omega)
+  refine ⟨_, _, _, by rw [natToDec_eq, e]; rfl, ha.1, hb.1, hc.1, ?_⟩
+  rw [ha.2, hb.2, hc.2]; omega
 
 end Px.Wf
